@@ -104,6 +104,36 @@ def run(ctx):
                                     why="rva lint %s prints different output in separate runs" % " ".join(mode),
                                     outputs=[o.decode("utf-8", "replace")[:1500] for o in list(set(outs))[:2]]))
                 break
+    # a file reached twice under DIFFERENT spellings of its path (plain, through ../, through ./): it is read at most once, so
+    # none of its diagnostics may be printed twice (by any mode of the binary)
+    import json as _json
+    for si in range(6 * k):
+        d = os.path.join(work, "sp%d" % si)
+        body = rng.choice([" addi zero, a0, 1\n li t5, 3\n", " li t4, 1\n li t4, 2\n add a0, a0, t4\n", " frob a0\n addi zero, zero, 4\n"])
+        first, second = rng.sample(["snip/clear.s", "./snip/clear.s", "snip/../snip/clear.s", "lib/../snip/clear.s"], 2)
+        via_lib = rng.random() < 0.6
+        files = [("main.s", "main:\n li a0, 1\n.include \"%s\"\n.include \"%s\"\n li a7, 10\n ecall\n" % (first, "lib/sum.s" if via_lib else second)),
+                 ("lib/sum.s", " addi a0, a0, 2\n.include \"%s\"\n" % rng.choice(["../snip/clear.s", "../snip/./clear.s", "./../snip/clear.s"])),
+                 ("snip/clear.s", body)]
+        write_files(d, files)
+        for mode in (["--json", "--all-files"], ["--compact", "--no-color", "--all-files"]):
+            rc_, so_, _se = lib.run_cli([rva, "lint"] + mode + [os.path.join(d, "main.s")], cpu_s=6.0)
+            cli_runs += 1
+            if rc_ == "timeout":
+                continue          # termination is C06's business
+            txt = so_.decode("utf-8", "replace")
+            if mode[0] == "--json":
+                try:
+                    items_ = [_json.dumps(x, sort_keys=True) for x in _json.loads(txt)["diagnostics"]]
+                except (ValueError, KeyError):
+                    continue
+            else:
+                items_ = [l for l in txt.split("\n") if l.strip()]
+            dup = [x for x in items_ if items_.count(x) > 1]
+            if dup:
+                failing.append(dict(files=files, base="main.s", kind="spellings", cls="duplicate", mode=mode,
+                                    why="rva lint %s prints the same diagnostic %d times: %s" % (" ".join(mode), items_.count(dup[0]), dup[0][:200])))
+                break
     known = lib.load_known("C10")
     fresh = []
     for fl in failing:
